@@ -366,10 +366,19 @@ pub fn run(cfg: &Cfg) -> Stats {
         total = total.merge(s);
         total.subspace("seeded sample of pairs across pools", cross, false);
     }
+    // 4. cold start (G28): ==, cmp, hash, the string and == &str as the first library calls of a fresh process
+    let s = crate::props::cold::for_each_probe(cfg.pick(1_200, 6_000), "eq-first", &|a, b, obs, st| crate::props::cold::check_eq(a, b, obs, st, "eq-first"));
+    total = total.merge(s);
     total
 }
 
 pub fn replay(case: &Value, st: &mut Stats) {
+    if let Some((a, b, order)) = crate::props::cold::replay_pair(case) {
+        if let Ok(obs) = crate::props::cold::probe(&a, &b, &order) {
+            crate::props::cold::check_eq(&a, &b, &obs, st, &order);
+        }
+        return;
+    }
     if case["kind"] == json!("consistency-pair") {
         replay_consistency(case, st);
         return;
